@@ -1015,12 +1015,29 @@ def gfun_is(rs, f, o):
     return "false"
 
 
+def gkres(o):
+    """pyttb's raw result as a literal of Model/C06Cont.v's kres Z (None: not expressible, e.g. a non-integral number)"""
+    k = o["kind"]
+    if k == "sparse":
+        return f"(KSp {gsp_obs(o)})"
+    if k in ("dense", "array"):
+        return f"(KDen {tgen.gdense(o['shape'], o['data'])})"
+    if k == "scalar" and Fraction(o["v"]).denominator == 1:
+        return f"(KNum {gz(int(Fraction(o['v'])))})"
+    return None
+
+
+def gcont_is(model, o):
+    g = gkres(o)
+    return " && false" if g is None else f" && kres_matches {model} {g}"
+
+
 def kernel_tie(c, o):
     """ties the C06 kernel theorems (stated over the C02 models impl_ttv_sp, impl_ttm_sp, impl_collapse_sp, impl_contract_sp,
     impl_scale_sp, impl_mask_sp) to pyttb inside this check: the first run's raw result is what the model computes from the
     literal operand"""
     a = c.args
-    if c.op not in ("ttv", "ttm", "collapse", "contract", "scale", "mask", "permute", "reshape", "squeeze"):
+    if c.op not in ("ttv", "ttm", "collapse", "contract", "scale", "mask", "permute", "reshape", "squeeze", "extract"):
         return ""
     shp = a["shape"]
     N = len(shp)
@@ -1047,21 +1064,32 @@ def kernel_tie(c, o):
         order = sorted(range(len(a["dims"])), key=lambda j: a["dims"][j])
         sd, sv = [a["dims"][j] for j in order], [a["vecs"][j] for j in order]
         rs = [shp[m] for m in range(N) if m not in sd]
-        return " && " + gfun_is(rs, f"(impl_ttv_sp {Z4} {A} {gnlist(sd)} [" + "; ".join(gzlist(v) for v in sv) + "])", o)
+        gv = "[" + "; ".join(gzlist(v) for v in sv) + "]"
+        # value model (C06_ops_ttv) and container model (C06_cont_ttv: kind of container, no explicit zero, accumulation)
+        return (" && " + gfun_is(rs, f"(impl_ttv_sp {Z4} {A} {gnlist(sd)} {gv})", o)
+                + gcont_is(f"(cont_ttv {Z4} zisz {A} {gnlist(sd)} {gv})", o))
     if c.op == "ttm":
         if len(a["dims"]) != 1:
             return ""
         n, U = a["dims"][0], a["mats"][0]
         J = len(U[0]) if a["tr"] else len(U)
         rs = [J if m == n else d for m, d in enumerate(shp)]
-        return " && " + gfun_is(rs, f"(impl_ttm_sp 0%Z Z.add Z.mul {A} {n} {tgen.gmatrix(U)} {'true' if a['tr'] else 'false'})", o)
+        gtr = 'true' if a['tr'] else 'false'
+        e = " && " + gfun_is(rs, f"(impl_ttm_sp 0%Z Z.add Z.mul {A} {n} {tgen.gmatrix(U)} {gtr})", o)
+        # container (C06_cont_ttm): a numpy matrix always gives the tensor full(Ynt); a scipy matrix gives Ynt itself or its expansion
+        ynt = f"(ttm_Ynt 0%Z Z.add Z.mul zisz {A} {n} {J} {tgen.gmatrix(U)} {gtr})"
+        if o["kind"] == "sparse":
+            return e + (f" && sp_perm_eqb {ynt} {gsp_obs(o)}" if a.get("spm") else " && false")
+        return e + gcont_is(f"(cont_ttm_ndarray 0%Z Z.add Z.mul zisz {A} {n} {J} {tgen.gmatrix(U)} {gtr})", o)
     if c.op == "collapse":
         dims = list(range(N)) if a["dims"] is None else sorted(a["dims"])
         rs = [shp[m] for m in range(N) if m not in dims]
-        return " && " + gfun_is(rs, f"(impl_collapse_sp 0%Z Z.add {A} {gnlist(dims)})", o)
+        return (" && " + gfun_is(rs, f"(impl_collapse_sp 0%Z Z.add {A} {gnlist(dims)})", o)
+                + gcont_is(f"(cont_collapse 0%Z Z.add zisz {A} {gnlist(dims)})", o))
     if c.op == "contract":
         rs = [shp[m] for m in range(N) if m not in (a["i1"], a["i2"])]
-        return " && " + gfun_is(rs, f"(impl_contract_sp 0%Z Z.add {A} {a['i1']} {a['i2']})", o)
+        return (" && " + gfun_is(rs, f"(impl_contract_sp 0%Z Z.add {A} {a['i1']} {a['i2']})", o)
+                + gcont_is(f"(cont_contract 0%Z Z.add zisz {A} {a['i1']} {a['i2']})", o))
     if c.op == "scale":
         if o["kind"] != "sparse":
             return " && false"
@@ -1069,6 +1097,11 @@ def kernel_tie(c, o):
         return f" && sp_perm_eqb (impl_scale_sp Z.mul zisz {A} {gnlist(sorted(a['dims']))} {g}) {gsp_obs(o)}"
     if c.op == "mask":
         return f" && vec_eqb (impl_mask_sp 0%Z {A} {gnmat(o['keys'])}) {gzlist(o['vals'])}"
+    if c.op == "extract":
+        # C06_ops_extract: a (p, 1) column, one value per requested row in the order of the request
+        if o["kind"] != "array" or o["shape"] != [len(a["q"]), 1]:
+            return " && false"
+        return f" && vec_eqb (impl_extract 0%Z {A} {gnmat(a['q'])}) {gzlist(o['data'])}"
     return ""
 
 
